@@ -6,14 +6,15 @@ import os
 
 from harness.core import pool, tb
 
-PROOF_MODULE = ["OdeVerif.Proofs.C14", "OdeVerif.Proofs.RefineStiffness", "OdeVerif.Proofs.RefinePartition"]
-GENERATED = ["DrawDecision", "Constants", "PyStiffness", "PyPartition"]
+PROOF_MODULE = ["OdeVerif.Proofs.C14", "OdeVerif.Proofs.RefineStiffness", "OdeVerif.Proofs.RefinePartition", "OdeVerif.Proofs.RefineStep"]
+GENERATED = ["DrawDecision", "Constants", "PyStiffness", "PyPartition", "PyStep"]
 THEOREMS = ["OdeVerif.C14.drawDecision_table", "OdeVerif.C14.drawDecision_clauses", "OdeVerif.C14.drawDecision_defaults",
             "OdeVerif.C14.drawDecision_args", "OdeVerif.C14.solverName_suffix", "OdeVerif.C14.solverName_none",
             "OdeVerif.C14.benchmarks_same_stimulus", "OdeVerif.C14.benchmarks_reproducible",
             "OdeVerif.C14.benchmarks_unfair_without_python_seed",
             "OdeVerif.Refine.checkStiffness_spec", "OdeVerif.Refine.recommendation_documented", "OdeVerif.Refine.no_recommendation_without_benchmark",
-            "OdeVerif.Refine.solverPartition_names"]
+            "OdeVerif.Refine.solverPartition_names",
+            "OdeVerif.Refine.numericalJacobian_entry", "OdeVerif.Refine.stepLocals_indep_stale"]
 LEVEL = "proof"
 EPS = 2.220446049250313e-16
 
@@ -173,6 +174,8 @@ def case_benchmark(case):
     MixedIntegrator.integrate_ode = rec_int
     if script:
         odeiv.SCRIPT = scripted
+    else:
+        odeiv.AUDIT = {"every": 5, "n": 0, "checked": 0, "fails": []}
     out = {"runs": []}
     try:
         random.seed.__self__ if False else None
@@ -196,6 +199,9 @@ def case_benchmark(case):
         StiffnessTester.__init__ = o_init
         MixedIntegrator.integrate_ode = o_int
         odeiv.SCRIPT = None
+        if odeiv.AUDIT is not None:
+            out["jac_audit"] = {"jacobians": odeiv.AUDIT["n"], "checked": odeiv.AUDIT["checked"], "fails": odeiv.AUDIT["fails"]}
+        odeiv.AUDIT = None
     out["seed_used"] = seeds_used[0] if seeds_used else None
     return out
 
@@ -391,6 +397,14 @@ def run(ctx, driver):
             want = "numeric" + ("-" + rec if rec is not None else "")
             if numeric != [want]:
                 ctx.fail("solver-name", indict, {"expected": want, "observed": r["names"], "signature": {"site": "analysis solver name"}})
+        ja = res.get("jac_audit")
+        if ja:
+            ctx.count("implicit_jacobians_handed", ja["jacobians"])
+            ctx.count("implicit_jacobians_audited", ja["checked"])
+            if ja["fails"]:
+                ctx.fail("implicit-candidate-benchmarked-on-another-system", indict,
+                         {"expected": "the Jacobian handed to the implicit candidate at (t, y) is the derivative of the right-hand side that is integrated, at the same (t, y)",
+                          "observed": ja["fails"][0], "signature": {"site": "numerical_jacobian during the benchmark"}})
         ok = [r for r in runs if not r["error"]]
         if len(ok) == 2:
             if ok[0]["trains"] != ok[1]["trains"] or ok[0]["recs"] != ok[1]["recs"]:
